@@ -63,6 +63,14 @@ def proj(reply):
     return '\t'.join(parts[:3] + [';'.join(per)])
 
 
+def impl_wrap(al, data, sizes):
+    """insp_impl.run_wrap, with anything that escapes (e.g. from close()) rendered instead of crashing"""
+    try:
+        return proj(insp_impl.run_wrap(al, None, data, sizes)[0])
+    except Exception as e:
+        return 'ESCAPED:%s' % type(e).__name__
+
+
 def gen_cases(ctx):
     rng = ctx.rng
     out = []
@@ -109,8 +117,7 @@ def correspondence(ctx):
     out = []
     for (label, data, al, sizes), rep in zip(cases, replies):
         ctx.evaluations += 1
-        impl, _w = insp_impl.run_wrap(al, None, data, sizes)
-        pi, pm = proj(impl), proj(rep)
+        pi, pm = impl_wrap(al, data, sizes), proj(rep)
         parts = pi.split('\t')
         decs = parts[0].split('|') if parts[0] else []
         final = parts[2] if len(parts) > 2 else '?'
@@ -141,7 +148,7 @@ def correspondence(ctx):
         ctx.evaluations += 1
         ctx.count('corr/after-prior/' + plabel)
         inspect_prior([pdata])
-        pi, pm = proj(insp_impl.run_wrap(al, None, ldata, sizes)[0]), proj(rep)
+        pi, pm = impl_wrap(al, ldata, sizes), proj(rep)
         ctx.nontrivial(('seq', plabel, G.digest(ldata), tuple(al or ()), tuple(sizes)))
         if pi != pm:
             out.append(Disagreement(case_of('%s after %s' % (llabel, plabel), ldata, al, sizes, prior=[pdata]), pi, pm))
@@ -193,6 +200,9 @@ def oracle(allowed, data, sizes, prior=()):
     allowed_set = set(allowed) if allowed else set(G.ALLF)
     if t['escaped']:
         return 'read() through the wrapper let %s escape' % t['escaped'], t
+    if t['close_escaped']:
+        return 'close() let %s escape (after close: format=%s formats=%s)' % (
+            t['close_escaped'], t['final'][0], t['final'][1]), t
     if set(t['names']) - allowed_set:
         return 'inspectors outside allowed_formats were created: %s' % sorted(set(t['names']) - allowed_set), t
     seq = t['decisions'] + [t['final']]
@@ -385,7 +395,7 @@ def finals(ctx, case):
     al = case.get('allowed')
     impl, model = [], []
     for sizes in (case['sizes'], case['sizes_b']):
-        impl.append(proj(insp_impl.run_wrap(al, None, data, sizes)[0]).split('\t')[2])
+        impl.append(impl_wrap(al, data, sizes).split('\t')[2])
         model.append(proj(ctx.driver.ask(G.wrap_req(al, None, data, sizes))).split('\t')[2])
     return impl, model
 
@@ -455,7 +465,7 @@ def replay(ctx, payload):
             pr = priors_of(case, key)
             print('inspected before, in the same process: %s' % ['%d bytes starting %r' % (len(p), p[:8]) for p in pr])
             inspect_prior(pr)
-            print('  implementation:', proj(insp_impl.run_wrap(al, None, data, case['sizes'])[0]).replace('\t', '  ||  '))
+            print('  implementation:', impl_wrap(al, data, case['sizes']).replace('\t', '  ||  '))
             why, t = oracle(al, data, case['sizes'], pr)
             summaries.append(summary(t))
             print('  property oracle on the implementation:', why)
@@ -471,7 +481,7 @@ def replay(ctx, payload):
             continue
         sizes = case[key]
         print('read sizes    :', sizes[:40])
-        print('implementation:', proj(insp_impl.run_wrap(al, None, data, sizes)[0]).replace('\t', '  ||  '))
+        print('implementation:', impl_wrap(al, data, sizes).replace('\t', '  ||  '))
         print('model         :', proj(ctx.driver.ask(G.wrap_req(al, None, data, sizes))).replace('\t', '  ||  '))
         why, _ = oracle(al, data, sizes)
         print('property oracle on the implementation:', why)
